@@ -141,16 +141,19 @@ extern "C" void h_rem() {
 #ifdef KF_ONLY_C04_rem_overflow
     vf_assume(ovf);
 #endif
-#ifdef KF_EXCL_C04_natural_as_signed
+#ifdef KF_EXCL_C04_natural_rem
     vf_assume(!big_nat);
 #endif
-#if defined(KF_ONLY_C04_natural_as_signed) || defined(REM_WIDE)
+#if defined(KF_ONLY_C04_natural_rem) || defined(REM_WIDE)
     vf_assume(big_nat && !zero && !ovf);
 #endif
     QE l, r; mk(l, a.k, a.b); mk(r, b.k, b.b);
     TC tc{nullptr, 0};
-    bool ok = tc.evaluateExpression(l, r, OP::Remainder);   // x % 0: CBMC's division-by-zero property fires inside operator%
-    vf_assert(ok == !(zero || ovf), 1);                   // no value for a zero divisor and for INT64_MIN % -1 (the hardware remainder traps)
+    bool ok = tc.evaluateExpression(l, r, OP::Remainder);   // x % 0 and INT64_MIN % -1: CBMC's division-by-zero / signed-mod-overflow
+                                                            // properties fire inside operator% (the hardware instruction traps)
+    if (zero) vf_assert(!ok, 1);                            // no value for a zero divisor
+    else if (ovf) vf_assert(!ok || (l.Type == ET::IntegerNumber && l.Value.Number.Integer == 0), 3);   // x % -1 is 0 (or no value), never a trap
+    else vf_assert(ok, 4);
     if (!(zero || ovf)) {
         i128 v;
 #ifdef REM_WIDE                                           // Natural operands >= 2^63: remainder on the magnitudes
@@ -187,10 +190,10 @@ extern "C" void h_cmp() {
     Opd a = pick(LK); Opd b = pick(RK);
     bool big_nat = ((a.k == K_NAT && a.b > (u64)I64_MAX) || (b.k == K_NAT && b.b > (u64)I64_MAX)) &&
                    !(a.k == K_REAL && b.k == K_REAL) && !(a.k == K_NAT && b.k == K_REAL);
-#ifdef KF_EXCL_C04_natural_as_signed
+#ifdef KF_EXCL_C04_natural_cmp
     vf_assume(!big_nat);
 #endif
-#ifdef KF_ONLY_C04_natural_as_signed
+#ifdef KF_ONLY_C04_natural_cmp
     vf_assume(big_nat);
 #endif
     QE l, r; mk(l, a.k, a.b); mk(r, b.k, b.b);
@@ -376,7 +379,7 @@ extern "C" void h_eq_mixed() {
             else {
                 bool big_nat = ((nk[0] == K_NAT && nb[0] > (u64)I64_MAX) || (nk[1] == K_NAT && nb[1] > (u64)I64_MAX)) &&
                                !(nk[0] == K_REAL && nk[1] == K_REAL) && !(nk[0] == K_NAT && nk[1] == K_REAL) && !(nk[0] == K_NAT && nk[1] == K_NAT);
-#ifdef KF_EXCL_C04_natural_as_signed
+#ifdef KF_EXCL_C04_natural_cmp
                 vf_assume(!big_nat);
 #endif
                 if (nk[0] != K_REAL && nk[1] != K_REAL) v = (ival(nk[0], nb[0]) == ival(nk[1], nb[1]));
